@@ -26,7 +26,7 @@ PROPS = {
                  "iter, reverse iter, set, insert, delete, lock-keys, commit/rollback) on 1-3 KVStore clients over 1-3 stores and 1-4 regions, "
                  "all RPC/TSO interleavings decided by the seeded simulator, with injected message loss, duplication, delay, region errors, "
                  "splits, merges and leader moves; a run is non-trivial when at least two transactions ran to their end; distinct = distinct "
-                 "canonical RPC traces (hash of the sequence of request identities and fates)"),
+                 "canonical RPC traces (hash of the sequence of request identities and fates) Modes lockretry / lockretry-R: pessimistic lock statements over several keys that fail behind a short-lived blocker and are retried at once with a fresh for-update ts while the clean-up of the failed attempt is delayed (failpoint knob beforeAsyncPessimisticRollback, go-start yield hook), fair-locking stages with existence checks followed by an insert, writers that try to get in while the lockers hold the keys; two thirds of these runs are free of message faults so that the lock-exclusion rule applies (no other transaction's commit is applied on a key between the return of a successful LockKeys and the begin of the locker's ending call). All workload modes: background goroutines of a transaction may start late (knob go_delay_pm), lock calls may ask for existence only (judged)."),
         "real_vs_stub": REAL_TXN,
         "assumptions": [
             "modes without suffix: the repository's mocktikv is the TiKV server (2PC, optimistic and pessimistic); modes ending in -R: the reference backend sim/refkv (2PC, async commit, 1PC mixed within a run)",
@@ -73,7 +73,7 @@ PROPS = {
         "rule": ("run index = shape x fault placement: per shape every single fault from {drop request, drop response (immediate / time-out), "
                  "NotLeader, EpochNotMatch, ServerIsBusy, StaleCommand, region split, leader move, multi-second stall (lock outlives its ttl, "
                  "resolvers race the committer), duplicate} at every RPC position 0..11 of Commit, then 56 sampled double/triple placements; "
-                 "non-trivial = a planned fault fired; distinct = distinct canonical RPC traces"),
+                 "non-trivial = a planned fault fired; distinct = distinct canonical RPC traces When the enumerated fault is a stall of the committer, half of the status checks of the other clients are delayed (a check asked before the expiry instant and answered after it)."),
         "real_vs_stub": REAL_TXN,
         "assumptions": ["mode faults: backend M (mocktikv), 2PC only; mode faults-R: reference backend, 2PC / async commit / 1PC", "single faults enumerated per shape; pairs, non-healing faults and context cancellation sampled"],
     },
@@ -139,7 +139,7 @@ PROPS = {
             {"mode": "batch", "quick": {"runs": 3008}, "thorough": {"runs": 80000}},
             {"mode": "send", "quick": {"runs": 3008}, "thorough": {"runs": 80000}},
         ],
-        "rule": "seeded actor programs over all lookup APIs, topology events and PD answer schedules; non-trivial = at least three calls returned a result and the run had more than one region or at least one applied event; distinct = canonical traces",
+        "rule": "seeded actor programs over all lookup APIs, topology events and PD answer schedules; non-trivial = at least three calls returned a result and the run had more than one region or at least one applied event; distinct = canonical traces A third of the multi-store runs have a TiFlash store holding a learner peer of every region (TiKV followers removed and re-added later are then listed behind it).",
         "real_vs_stub": "real code: internal/locate (RegionCache with background goroutines, SortedRegions, CodecPDClient, store cache, RegionRequestSender, replica selector), config/retry, internal/apicodec (v1), tikvrpc, internal/mockstore/mocktikv (Cluster, RPCClient, Session checks, MVCC store); stub: PD region queries (simPD over snapshots of the mock cluster), gRPC client (simClient), store liveness probe, clock",
         "assumptions": ["every region always has a leader known to PD; one store down at a time", "a PD answer is a consistent snapshot (current or k events old), never a list with holes", "no buckets, down / pending peers, TiFlash, witnesses, forwarding; API v1 transactional key mode", "LocateEndKey is never called with an empty key (known finding F1)"],
     },
@@ -225,7 +225,7 @@ PROPS = {
             {"mode": "nofault", "quick": {"runs": 4000}, "thorough": {"runs": 32000}},
             {"mode": "ambig", "quick": {"runs": 4000}, "thorough": {"runs": 64000}},
         ],
-        "rule": "seeded caller programs, fault plans and yield release orders; non-trivial = a call got its own response and a fault fired or a batch carried more than one request; distinct = canonical traces of dials, streams, sends, deliveries, breaks, returns",
+        "rule": "seeded caller programs, fault plans and yield release orders; non-trivial = a call got its own response and a fault fired or a batch carried more than one request; distinct = canonical traces of dials, streams, sends, deliveries, breaks, returns The first wait for a connection may take 1-80 ms of simulated time (net.slow_connect) while the send loop holds its first batch; 15 % of the synchronous calls carry a context deadline later than their own time-out.",
         "real_vs_stub": "real code: internal/client (client.go, client_batch.go, conn_batch.go, client_async.go, conn_pool.go, priority_queue.go); stub: gRPC connection and BatchCommands stream (simulated), echo server, clock",
         "assumptions": ["interleavings inside batchCommandsClient.send are not explored"],
     },
@@ -256,7 +256,7 @@ PROPS = {
             {"mode": "gc-R", "quick": {"runs": 1200}, "thorough": {"runs": 60000}},
         ],
         "rule": ("mode gc: mode reads' writers and crashes, extra region splits, a GC plan from the seed (range bounds incl. empty = unbounded, regions per task 1-3, concurrency 1-8, "
-                 "scan limit 0 (KVStore.GC) / 1 / 2 / 3 / 8, optional injected handler failure, optional delete-range); non-trivial = at least one transaction ended; distinct = canonical RPC traces"),
+                 "scan limit 0 (KVStore.GC) / 1 / 2 / 3 / 8, optional injected handler failure, optional delete-range); non-trivial = at least one transaction ended; distinct = canonical RPC traces Request-attached topology fates on GC requests include topo-merge-aft (the region absorbs its right neighbour right after a ScanLock / ResolveLock was executed)."),
         "real_vs_stub": REAL_TXN + "; also real: tikv/gc.go, txnkv/rangetask, tikv/safepoint.go cache",
         "assumptions": ["backend M (mocktikv)", "populations are small (<= 6 keys): 'any number of locks per region relative to the scan limit' is explored through small limits"],
     },
@@ -289,7 +289,7 @@ PROPS = {
         ],
         "rule": ("mode seq: one goroutine (every 2nd run from the complete enumeration of tiny programs over a 10-step alphabet x 12 budget/weight combinations, the others seeded samples); "
                  "mode forks: plus concurrent fork groups, cancellation of fork contexts, merges; non-trivial = at least two calls really slept and (forks) a group with >= 2 concurrent members ran; "
-                 "distinct = canonical traces of all calls with instants, slept time, error class, counters"),
+                 "distinct = canonical traces of all calls with instants, slept time, error class, counters Programs contain SetCtx steps (a context of its own, not derived from the old one, after the back-offer was used) whose cancel function the canceller may fire."),
         "real_vs_stub": "real code: config/retry (Backoffer, Config, back-off functions), kv.Variables; nothing stubbed except the clock (testing/synctest) and math/rand seeding",
         "assumptions": ["limits and caps are read from the library's objects through a read-only export shim, never copied"],
     },
